@@ -368,7 +368,10 @@ def _(self, order: Ref("BaseOrder")):
                                                  0, old(len(self._live_orders))), given=["first_occurrence_removed", "position"])
     ensures("others_stay", forall_of(lambda o: implies(o != order, (o in self._live_orders) == old(o in self._live_orders)), Ref("BaseOrder")),
             given=["first_occurrence_removed", "position", "survivors_keep_their_order"])
-    ensures("live_full_preserved", implies(old(live_full(self)), live_full(self)), given=["others_stay"])
+    ensures("others_stay_by_id", forall_of(lambda k: implies(k in self._orders and self._orders[k] != order,
+                                                             (self._orders[k] in self._live_orders) == old(self._orders[k] in self._live_orders)), ATOM),
+            given=["others_stay"])
+    ensures("live_full_preserved", implies(old(live_full(self)), live_full(self)), given=["others_stay_by_id"])
 
 
 # ----------------------------------------------------------------------------- lookups
